@@ -35,8 +35,8 @@ class RecordingWriter:
         self.ended += 1
 
 
-class Timeout(Exception):
-    pass
+class Timeout(BaseException):
+    """raised by the watchdog; a BaseException so that no `except Exception` of the code under test can swallow it"""
 
 
 def _alarm(signum, frame):
@@ -60,7 +60,9 @@ def assemble(src, filename="t.s", rom_type=None, timeout=10, defines=None):
     w = RecordingWriter()
     res = {"status": "ok", "blocks": [], "error": None, "exc": None}
     old = signal.signal(signal.SIGALRM, _alarm)
-    signal.alarm(timeout)
+    # the alarm REPEATS every second after the first expiry: a handler invoked at the interpreter's recursion limit dies with a RecursionError of its
+    # own, which code that catches RecursionError would swallow together with the watchdog
+    signal.setitimer(signal.ITIMER_REAL, timeout, 1.0)
     try:
         with contextlib.redirect_stdout(io.StringIO()):
             err = p.assemble_string_with_emitter(src, filename, w)
@@ -68,6 +70,7 @@ def assemble(src, filename="t.s", rom_type=None, timeout=10, defines=None):
             res["status"] = "error"
             res["error"] = err
     except Timeout:
+        signal.setitimer(signal.ITIMER_REAL, 0)
         res["status"] = "timeout"
     except BaseException as e:  # noqa: BLE001
         res["status"] = "exception"
@@ -75,7 +78,7 @@ def assemble(src, filename="t.s", rom_type=None, timeout=10, defines=None):
         res["exc_type"] = type(e).__name__
         res["exc_obj"] = e
     finally:
-        signal.alarm(0)
+        signal.setitimer(signal.ITIMER_REAL, 0)
         signal.signal(signal.SIGALRM, old)
     res["blocks"] = w.blocks
     res["program"] = p
